@@ -45,6 +45,7 @@ type outcome struct {
 	planErr   string
 	sqlText   string
 	nonEmpty  bool
+	limitCut  bool // a limit case whose cut really skips non-matching lines: some in-window log line of a selected kind lies on the returned side of the cut-off without matching
 	explained []string
 }
 
@@ -366,6 +367,9 @@ func evaluate(spec caseSpec, db *Database, verbose bool) outcome {
 			dump("impl  ", append([]Row{}, impl...))
 		}
 	}
+	if spec.Params.Limit > 0 && int64(len(full)) > spec.Params.Limit {
+		out.limitCut = cutSkipsFailing(db, full, spec.Params)
+	}
 	diff := checkResult(impl, full, spec.Params)
 	if diff == "" {
 		if out.nonEmpty {
@@ -434,8 +438,9 @@ func main() {
 	r := ev.Start("C07", "model_checking", 75*time.Second, 17*time.Minute)
 	r.Rule = "every query of the bounded LogQL grammar (1-2 matchers over = != =~ !~; pipelines of <=2 (thorough <=3) stages over line filters |= != |~ !~, " +
 		"label-filter trees of <=3 leaves with and/or/parentheses over string and numeric comparisons, json with parameters, regexp with named groups, drop) " +
-		"is rendered by the real parser+planner and executed by chsim on the universal database under 2 windows x {no limit, limit 1000} x {backward, forward} x {single-node, cluster rendering} " +
-		"(quick tier: the parameter variants only for queries of <=1 stage whose label filter, if any, is a single leaf), " +
+		"is rendered by the real parser+planner and executed by chsim on the universal database (time-interleaved: passing and failing lines of every stage alternate) without limit, " +
+		"with limits {1, 2, n-1} below the number n of matching lines x {backward, forward} (first query of every shape: all 6 variants; the others: 4 in thorough, 1 rotating in quick), " +
+		"and under a second window / forward / cluster rendering (quick: only for queries of <=1 stage with a single-leaf filter), " +
 		"and a set of pipeline shapes on every sub-database of <=3 rows of a 6-row pool under limit {1,2,3} x direction; a case is distinct by its query text; " +
 		"non-trivial = the oracle's match set is non-empty or differs between two cases"
 	r.Assumptions = []string{
@@ -501,41 +506,94 @@ func main() {
 	queries := enumerateQueries(cfg)
 	var cases []caseSpec
 	seen := map[string]bool{}
-	windows := [][2]int64{{start, end}, {start + 1, end - 1}}
+	// distinct queries, and the size of each one's match set on the universal database (decides which limits cut)
+	var uq []*Query
 	for _, qu := range queries {
 		text := qu.String()
 		if seen[text] {
 			continue
 		}
 		seen[text] = true
-		for wi, w := range windows {
-			for _, lim := range []int64{0, 1000} {
-				for _, fwd := range []bool{false, true} {
-					// the full product on the first window; on the second window only the default direction/limit
-					if wi == 1 && (lim != 0 || fwd) {
+		uq = append(uq, qu)
+	}
+	matchCount := make([]int, len(uq))
+	{
+		var wg sync.WaitGroup
+		chunk := (len(uq) + 15) / 16
+		for w := 0; w < 16; w++ {
+			lo, hi := w*chunk, (w+1)*chunk
+			if hi > len(uq) {
+				hi = len(uq)
+			}
+			if lo >= hi {
+				continue
+			}
+			wg.Add(1)
+			go func(lo, hi int) {
+				defer wg.Done()
+				o := &oracle{}
+				for i := lo; i < hi; i++ {
+					rows, err := o.Eval(uni, uq[i], Params{Start: start, End: end})
+					if err != nil {
+						matchCount[i] = -1
 						continue
 					}
-					if wi == 0 && lim == 1000 && !fwd && !cfg.thorough {
-						continue
-					}
-					if wi == 0 && lim == 0 && fwd && !cfg.thorough {
-						continue
-					}
-					// quick tier: window/limit/direction variants only for queries of at most one stage (the clauses
-					// they exercise are attached independently of the pipeline; the small databases cover limits per shape)
-					if !cfg.thorough && !simpleQuery(qu) && !(wi == 0 && lim == 0 && !fwd) {
-						continue
-					}
-					cases = append(cases, caseSpec{Query: qu, Text: text, DB: uni.Name, Params: Params{Start: w[0], End: w[1], Limit: lim, Forward: fwd}})
+					matchCount[i] = len(rows)
 				}
+			}(lo, hi)
+		}
+		wg.Wait()
+	}
+	shapeSeen := map[string]bool{}
+	for qi, qu := range uq {
+		text := qu.String()
+		add := func(p Params, cluster bool) {
+			cases = append(cases, caseSpec{Query: qu, Text: text, DB: uni.Name, Params: p, Cluster: cluster})
+		}
+		add(Params{Start: start, End: end}, false)
+		if cfg.thorough || simpleQuery(qu) {
+			// second window (entries one tick outside both edges), forward without limit, cluster rendering (inlined
+			// WITHs, GLOBAL joins, distributed table names)
+			add(Params{Start: start + 1, End: end - 1}, false)
+			add(Params{Start: start, End: end}, true)
+			if cfg.thorough {
+				add(Params{Start: start, End: end, Forward: true}, false)
 			}
 		}
-		if cfg.thorough || simpleQuery(qu) {
-			// cluster mode: inlined WITHs, GLOBAL joins, distributed table names
-			cases = append(cases, caseSpec{Query: qu, Text: text, DB: uni.Name, Params: Params{Start: start, End: end}, Cluster: true})
+		// LIMIT x direction for EVERY query: limits below the number n of matching lines, so that the cut falls
+		// inside the (time-interleaved) data.  Variants: (1,bwd) (1,fwd) (2,bwd) (n-1,fwd) (2,fwd) (n-1,bwd).
+		n := int64(matchCount[qi])
+		if n < 2 {
+			continue
+		}
+		type lv struct {
+			l   int64
+			fwd bool
+		}
+		var variants []lv
+		dup := map[lv]bool{}
+		for _, v := range []lv{{1, false}, {1, true}, {2, false}, {n - 1, true}, {2, true}, {n - 1, false}} {
+			if v.l >= 1 && v.l < n && !dup[v] {
+				dup[v] = true
+				variants = append(variants, v)
+			}
+		}
+		shape := qu.Shape()
+		first := !shapeSeen[shape]
+		shapeSeen[shape] = true
+		for vi, v := range variants {
+			switch {
+			case first: // the first query of every shape: all variants, in both tiers
+			case cfg.thorough && vi < 4:
+			case !cfg.thorough && vi == qi%len(variants): // quick: the variants rotate over the queries of a shape
+			default:
+				continue
+			}
+			add(Params{Start: start, End: end, Limit: v.l, Forward: v.fwd}, false)
 		}
 	}
-	nUniversalQueries := len(seen)
+	nUniversalQueries := len(uq)
+	r.Extra["query_shapes"] = len(shapeSeen)
 	for _, qu := range limitQueries() {
 		text := qu.String()
 		for _, d := range smalls {
@@ -613,6 +671,8 @@ func main() {
 	pairs := map[string]bool{}
 	executed := int64(0)
 	sampledShapes := map[string]bool{}
+	limitCases, limitCasesCutting := 0, 0
+	limitShapes := map[string]bool{}
 	classCount := map[string]int{}
 	classExample := map[string]string{}
 	for i := range results {
@@ -647,6 +707,13 @@ func main() {
 			continue
 		}
 		executed++
+		if o.spec.Params.Limit > 0 && o.spec.DB == "universal" {
+			limitCases++
+			if o.limitCut {
+				limitCasesCutting++
+				limitShapes[o.spec.Query.Shape()] = true
+			}
+		}
 		r.Outcome(o.outcome)
 		if o.class == "" {
 			if shape := o.spec.Query.Shape(); o.nonEmpty && !sampledShapes[shape] && len(o.spec.Query.Stages) > 0 {
@@ -676,6 +743,7 @@ func main() {
 	r.Extra["programs_on_universal_database"] = nUniversalQueries
 	r.Extra["databases"] = len(dbs)
 	r.Extra["universal_database"] = map[string]int{"streams": len(uni.Streams), "entries": len(uni.Entries)}
+	r.Extra["limit_cases_on_universal_database"] = map[string]int{"cases": limitCases, "cut_skips_non_matching_lines": limitCasesCutting, "query_shapes_with_such_a_case": len(limitShapes)}
 	r.Extra["cases_planned"] = len(cases)
 	r.Extra["cases_done"] = done
 	r.Extra["chsim_unsupported"] = chsimUnsupported
@@ -758,4 +826,38 @@ func simpleQuery(q *Query) bool {
 		return false
 	}
 	return true
+}
+
+
+// cutSkipsFailing: with the limit applied to the oracle's match set, is there an in-window log-type entry that does
+// NOT match the query but is newer (older, when forward) than the last returned line?  Only then a LIMIT placed
+// before a filtering stage gives a different answer.
+func cutSkipsFailing(db *Database, full []Row, p Params) bool {
+	ts := make([]int64, len(full))
+	for i, r := range full {
+		ts[i] = r.TS
+	}
+	sort.Slice(ts, func(i, j int) bool {
+		if p.Forward {
+			return ts[i] < ts[j]
+		}
+		return ts[i] > ts[j]
+	})
+	cut := ts[p.Limit-1]
+	inside := 0
+	for _, e := range db.Entries {
+		if db.Streams[e.Stream].Type == 2 || e.TS < p.Start || e.TS >= p.End {
+			continue
+		}
+		if (p.Forward && e.TS < cut) || (!p.Forward && e.TS > cut) {
+			inside++
+		}
+	}
+	matchingInside := 0
+	for _, t := range ts {
+		if (p.Forward && t < cut) || (!p.Forward && t > cut) {
+			matchingInside++
+		}
+	}
+	return inside > matchingInside
 }
